@@ -18,21 +18,21 @@ import (
 // own FaultSeed and its own byte streams, never from global time or another task,
 // so the outcome of a request is schedule-independent for correct code.
 type Faults struct {
-	Seed            uint64 `json:"seed"`
-	ReqCutMode      int    `json:"req_cut,omitempty"`  // 0 none 1 bytewise-head 2 small 3 few 4 buffer-boundaries
-	RespCutMode     int    `json:"resp_cut,omitempty"`
-	ReqReset        bool   `json:"req_reset,omitempty"`  // connection reset inside the request
-	ReqResetInBody  bool   `json:"req_reset_in_body,omitempty"`
-	ErrWithData     bool   `json:"err_with_data,omitempty"` // reader returns (n>0, err) together
-	RespTruncate    bool   `json:"resp_truncate,omitempty"`
-	Dup             bool   `json:"dup,omitempty"`
-	Intermediary    int    `json:"intermediary,omitempty"` // 0 none, else index into Canned
-	WriterFail      bool   `json:"writer_fail,omitempty"`  // ResponseWriter.Write starts failing after k bytes
-	WriterFailAt0   bool   `json:"writer_fail_at_0,omitempty"` // ... with k = 0: the very first Write is rejected with n = 0
-	CancelBefore    bool   `json:"cancel_before_send,omitempty"`
-	SrvCancelStep   int    `json:"srv_cancel_step,omitempty"` // server ctx cancelled at the server task's k-th own step
-	RawRespFail     bool   `json:"raw_resp_fail,omitempty"`   // handler-supplied raw response body fails mid-copy
-	SrvCancelAtStart bool  `json:"srv_cancel_at_start,omitempty"` // request context already cancelled when ServeHTTP is entered
+	Seed             uint64 `json:"seed"`
+	ReqCutMode       int    `json:"req_cut,omitempty"` // 0 none 1 bytewise-head 2 small 3 few 4 buffer-boundaries
+	RespCutMode      int    `json:"resp_cut,omitempty"`
+	ReqReset         bool   `json:"req_reset,omitempty"` // connection reset inside the request
+	ReqResetInBody   bool   `json:"req_reset_in_body,omitempty"`
+	ErrWithData      bool   `json:"err_with_data,omitempty"` // reader returns (n>0, err) together
+	RespTruncate     bool   `json:"resp_truncate,omitempty"`
+	Dup              bool   `json:"dup,omitempty"`
+	Intermediary     int    `json:"intermediary,omitempty"`     // 0 none, else index into Canned
+	WriterFail       bool   `json:"writer_fail,omitempty"`      // ResponseWriter.Write starts failing after k bytes
+	WriterFailAt0    bool   `json:"writer_fail_at_0,omitempty"` // ... with k = 0: the very first Write is rejected with n = 0
+	CancelBefore     bool   `json:"cancel_before_send,omitempty"`
+	SrvCancelStep    int    `json:"srv_cancel_step,omitempty"`     // server ctx cancelled at the server task's k-th own step
+	RawRespFail      bool   `json:"raw_resp_fail,omitempty"`       // handler-supplied raw response body fails mid-copy
+	SrvCancelAtStart bool   `json:"srv_cancel_at_start,omitempty"` // request context already cancelled when ServeHTTP is entered
 }
 
 func (f Faults) Any() bool {
